@@ -14,7 +14,12 @@ RULE = ("TLC enumerates scenario descriptors PER COMPONENT exhaustively (obstacl
         "leaves in class exact / within_tol (|x'-x| < 10^-d, Fraction arithmetic); EVERY differing leaf of an event is "
         "reported (one clause each, at most 8).  distinct_nontrivial = distinct "
         "(descriptor, d).")
-ASSUMPTIONS = ["ids: the pools use symbolic ids; Codec!Renumber materialises them with an id-order token (natural, lights_first, "
+ASSUMPTIONS = ["writer reuse: the cases of component `reuse` (every edit x second write x obstacle role x id-order token on a "
+               "world with every component) and a third of the mixed draws write once, edit the scenario in place (Codec!Edit: "
+               "add lanelet+sign+light, remove an obstacle, translate the lanelet network, change a light offset, add a planning "
+               "problem), write again with the SAME writer object (write_to_file or write_scenario_to_file) and compare the "
+               "second file with Codec!WrittenBy(desc, reuse); sig suffix @reused-writer (C03: full files only)",
+               "ids: the pools use symbolic ids; Codec!Renumber materialises them with an id-order token (natural, lights_first, "
                "interleaved, lanelets_high, obstacles_low, pp_smallest, reversed): every token for stop lines referring to signs AND "
                "lights and for two-incoming intersections, in rotation over the other lanelet / sign / light / intersection "
                "cases, at random in the mixed draws",
